@@ -7,6 +7,7 @@ import (
 	"reflect"
 	"sort"
 	"strings"
+	"sync"
 	"testing/fstest"
 	"time"
 
@@ -206,6 +207,8 @@ func (c *c10Case) Run(ctx *core.Ctx) {
 		c.runOrder(ctx)
 	case "history":
 		c.runHistory(ctx)
+	case "cold":
+		c.runCold(ctx)
 	case "data":
 		c.runData(ctx)
 	case "clock":
@@ -501,6 +504,46 @@ func siteFunc(site string) string {
 
 var siteFuncs = map[string]string{}
 
+// runCold: a render in a process that has rendered every program of the catalogue (both data
+// sets, three entry points) equals the same render in a process of its own in which nothing else
+// has happened: process-wide state - caches with a limit, memo tables, pools - is not an input.
+func (c *c10Case) runCold(ctx *core.Ctx) {
+	ctx.NonTrivial()
+	c10WarmProcess.Do(func() {
+		for _, entry := range []string{"", "vue", "fragment"} {
+			e := newCatEng()
+			for _, p := range Catalog {
+				for _, variant := range []string{"", "~alt"} {
+					e.step(entry, p.Name+variant, "CANARY_WARM")
+				}
+			}
+		}
+	})
+	step := c.Seq[0]
+	ctx.Eval(2)
+	var got string
+	withPlan(&vrtPlan{}, func() { got = newCatEng().step(c.Entry, step, "CANARY_LAST") })
+	want, err := core.Solo("c10render", c.Entry, step)
+	if err != nil {
+		ctx.Violation("solo-process-failed", step, c.Entry, err.Error())
+		return
+	}
+	ctx.Outcome(got)
+	if got != want {
+		ctx.Violation("depends-on-process-history", step+"/"+c.Entry, "after-the-whole-catalogue", fmt.Sprintf("in a process that has rendered the whole catalogue, %s renders\n got: %q\nin a process of its own\nwant: %q", step, clip(got, 500), clip(want, 500)))
+	}
+}
+
+var c10WarmProcess sync.Once
+
+func init() {
+	core.RegisterSolo("c10render", func(args []string) string {
+		var out string
+		withPlan(&vrtPlan{}, func() { out = newCatEng().step(args[0], args[1], "CANARY_LAST") })
+		return out
+	})
+}
+
 // runHistory: render Seq on ONE engine; the last render must equal the same render on a fresh engine.
 func (c *c10Case) runHistory(ctx *core.Ctx) {
 	ctx.NonTrivial()
@@ -659,7 +702,7 @@ func init() {
 		ID:    "C10",
 		Level: "model_checking",
 		Rule: "a catalogue of " + fmt.Sprint(len(Catalog)) + " programs (one per feature, incl. 6 failing ones), all on one file set. (1) map-order: with every map iteration of the vuego module behind a seam, every execution with <=d deviating occurrences (all permutations for <=4 keys, reversal+rotations above) plus two global orders must give the bytes of the ascending-order run (the looped maps also keyed by int, float64 and any); " +
-			"(2) histories: every ordered sequence of <=L (program, data set) steps - each program with its normal and with an alternative data set that flips every boolean and changes lengths and strings, with the same values in other Go types (float64 for int, typed slices and maps, a struct for a map), and without any data (nil / empty map) - on one engine through Load().Fill().Render, Vue.Render and Vue.RenderFragment, last render compared with a fresh engine, no canary of an earlier render; (3) caller data deep-equal before/after through 4 entry points, handed over as map[string]any, as a named map type and as a pointer to the map; (4) frozen and backwards clocks; (5) the page file replaced between renders by versions with later / earlier modification times, used engine against fresh engine. states = executions whose output was compared; non-trivial = program reaches at least one map iteration / any history",
+			"(2) histories: every ordered sequence of <=L (program, data set) steps - each program with its normal and with an alternative data set that flips every boolean and changes lengths and strings, with the same values in other Go types (float64 for int, typed slices and maps, a struct for a map), and without any data (nil / empty map) - on one engine through Load().Fill().Render, Vue.Render and Vue.RenderFragment, last render compared with a fresh engine, no canary of an earlier render; (2b) cold part: every program (both data sets, three entry points) rendered in a process that has rendered the whole catalogue before, compared with the same render in a process of its own that has done nothing else; (3) caller data deep-equal before/after through 4 entry points, handed over as map[string]any, as a named map type and as a pointer to the map; (4) frozen and backwards clocks; (5) the page file replaced between renders by versions with later / earlier modification times, used engine against fresh engine. states = executions whose output was compared; non-trivial = program reaches at least one map iteration / any history",
 		Bounds:      map[string]string{"quick": "d=1 deviation, L=2 (all ordered pairs)", "thorough": "d=2 deviations, L=3 (all ordered triples)"},
 		Assumptions: []string{"the instrumenter finds every range-over-map and MapKeys call of the vuego module by type (sites listed in the overlay's sites.json)", "map iteration inside dependencies (expr-lang, yaml, goldmark) is not controlled"},
 		Decode:      core.DecodeAs[c10Case](),
@@ -726,6 +769,12 @@ func init() {
 					}
 				}
 				rec(nil)
+			}
+			for _, entry := range []string{"", "vue", "fragment"} {
+				for _, p := range Catalog {
+					emit(&c10Case{Part: "cold", Seq: []string{p.Name}, Entry: entry})
+					emit(&c10Case{Part: "cold", Seq: []string{p.Name + "~alt"}, Entry: entry})
+				}
 			}
 			for _, entry := range []string{"", "vue", "fragment"} {
 				var rec func(seq []string)
